@@ -49,7 +49,6 @@ class SimBase:
 
                 def writer(self, newval, pname=k):
                     self.log.debug('simulated writing %r to %s', newval, pname)
-                    self.parameters[pname].value = newval
                     return newval
 
                 attrs['write_' + k] = writer
